@@ -79,7 +79,11 @@ func init() {
 			// the same inputs cut short (they fail deep inside)
 			nShort := len(inputs)
 			seenDeep := map[string]bool{}
-			for _, d := range []int{330, 1500} {
+			depths, partners := []int{330}, 4
+			if it.Fam == "Deep" {
+				depths, partners = []int{330, 1500}, 8
+			}
+			for _, d := range depths {
 				if deep := c.DeepSentence(d); deep != nil && !seenDeep[strings.Join(deep, " ")] {
 					seenDeep[strings.Join(deep, " ")] = true
 					inputs = append(inputs, deep, deep[:len(deep)-1])
@@ -149,7 +153,7 @@ func init() {
 			// deep inputs are paired with the first short inputs and with each other (before and after), not with everything
 			for d := nShort; d < len(inputs); d++ {
 				for b := 0; b < len(inputs); b++ {
-					if b >= 8 && b < nShort {
+					if b >= partners && b < nShort {
 						continue
 					}
 					run([][2]int{{d, 0}}, b)
